@@ -285,6 +285,8 @@ pub fn eval(op: &str, a: &[&str]) -> Option<String> {
                     match u32::from_str_radix(x, 8) { Ok(m) if m <= 0o777 => umask = m, _ => return Some("bad-request".into()) }
                 } else if let Some(x) = o.strip_prefix("uid=") {
                     match x.parse() { Ok(u) => uid = u, Err(_) => return Some("bad-request".into()) }
+                } else if *o == "feat=nobz" {
+                    // for the driver: this binary links rpm-rs without bzip2 support
                 } else {
                     return Some("bad-request".into());
                 }
@@ -484,6 +486,10 @@ pub struct HSpec {
     /// stripped entry's data length is taken from it — a lying, huge size over a short archive must end in an error
     /// (seed C12-9: the content buffer pre-allocated with the header's size panics with "capacity overflow")
     pub long_sizes: Option<Vec<u64>>,
+    /// compress the (possibly cut) archive with this codec (crates called directly) and drop `z_cut` bytes from the END of
+    /// the compressed stream: a truncated / damaged compressed payload. The header's compressor name is `compressor`.
+    pub zkind: Option<&'static str>,
+    pub z_cut: usize,
 }
 
 pub fn stripped_entry(idx: u32, data: &[u8]) -> Vec<u8> {
@@ -586,6 +592,11 @@ pub fn hostile_pkg(s: &HSpec) -> Vec<u8> {
     payload.extend(cpio_entry(b"TRAILER!!!", 0, &[]));
     if let Some(k) = s.payload_cut {
         payload.truncate(k.min(payload.len()));
+    }
+    if let Some(kind) = s.zkind {
+        payload = crate::c07::compress07(kind, &payload);
+        let keep = payload.len().saturating_sub(s.z_cut);
+        payload.truncate(keep);
     }
     let lead = gen_lead(&mut Rng::new(1), false);
     assemble(&lead, &GHeader::new(), 0, &h, &payload)
@@ -845,7 +856,34 @@ fn corpus_requests() -> Vec<String> {
         .collect()
 }
 
+/// the harness built against rpm-rs with ITS default features (no bzip2): a package whose header names `bzip2` cannot be
+/// iterated (`decompress_stream`: `UnsupportedCompressorType`), so `extract` creates the directory names and then fails -
+/// whatever the payload holds; gzip as the control
+fn gen_nobz(ctx: &mut Ctx) {
+    let jail = std_jail();
+    let mut base = hs(&["/", "/a/", "/a/b/"], vec![hf(0, "f", REG | 0o644, "", "hello"), hf(1, "g", REG | 0o755, "", "world!!"), hf(2, "h", REG | 0o600, "", "deep")]);
+    for named in [true, false] {
+        base.named = named;
+        let archive = { let pk = hostile_pkg(&base); rpm::Package::parse(&mut &pk[..]).map(|p| p.content).unwrap_or_default() };
+        for kind in ["bzip2", "gzip"] {
+            let mut s = base.clone();
+            s.compressor = Some(b(kind));
+            s.zkind = Some(kind);
+            ctx.req(&format!("{} feat=nobz", request(&hostile_pkg(&s), Some(&archive), "/target", &jail)));
+            if kind == "bzip2" {
+                // the payload is not even bzip2: the answer must not depend on it
+                let mut s2 = base.clone();
+                s2.compressor = Some(b(kind));
+                ctx.req(&format!("{} feat=nobz", request(&hostile_pkg(&s2), Some(&archive), "/target", &jail)));
+            }
+        }
+    }
+}
+
 pub fn gen(ctx: &mut Ctx) {
+    if ctx.variant == "nobz" {
+        return gen_nobz(ctx);
+    }
     let (si, sn) = ctx.shard;
     let jail = std_jail();
     let mut src = SrcDir::new();
@@ -918,6 +956,47 @@ pub fn gen(ctx: &mut Ctx) {
             for comp in [rpm::CompressionType::Gzip, rpm::CompressionType::Zstd, rpm::CompressionType::Xz, rpm::CompressionType::Bzip2] {
                 if let (Some(pc), Ok(raw)) = (build_pkg(&mut src, &files, comp), rpm::Package::parse(&mut &p[..])) {
                     ctx.req(&request(&pc, Some(&raw.content), "/target", &jail));
+                }
+            }
+        }
+        // damaged / truncated COMPRESSED payloads (`decompress_stream` is lazy: the entries decoded before the damage are
+        // extracted, then `extract` fails): builder-made packages with the end of the compressed payload cut off, and
+        // hand-assembled ones (named and stripped entries) for every codec
+        if let Some(p) = build_pkg(&mut src, &files, rpm::CompressionType::None) {
+            if let Ok(raw) = rpm::Package::parse(&mut &p[..]) {
+                for (comp, kind) in [(rpm::CompressionType::Gzip, "gzip"), (rpm::CompressionType::Zstd, "zstd"), (rpm::CompressionType::Xz, "xz"), (rpm::CompressionType::Bzip2, "bzip2")] {
+                    let Some(pc) = build_pkg(&mut src, &files, comp) else { continue };
+                    let Ok(pz) = rpm::Package::parse(&mut &pc[..]) else { continue };
+                    let zl = pz.content.len();
+                    for cut in [1usize, 8, zl / 8, zl / 2, zl - zl / 8] {
+                        let keep = zl - cut.min(zl);
+                        let Some((dec, _)) = crate::c07::decode_prefix(kind, &pz.content[..keep]) else { continue };
+                        if dec.is_empty() || !raw.content.starts_with(&dec) { continue; }
+                        ctx.req(&request(&pc[..pc.len() - (zl - keep)], Some(&dec), "/target", &jail));
+                    }
+                }
+            }
+        }
+        {
+            let mut base = hs(&["/", "/a/", "/a/b/"], vec![hf(0, "f", REG | 0o644, "", "hello"), hf(1, "g", REG | 0o755, "", "world!!"),
+                hf(2, "big", REG | 0o600, "", &"0123456789abcdef".repeat(400)), hf(1, "l", LNK | 0o777, "g", ""), hf(0, "last", REG | 0o644, "", "the end")]);
+            for named in [true, false] {
+                base.named = named;
+                for kind in ["gzip", "zstd", "xz", "bzip2"] {
+                    let mut full = base.clone();
+                    full.compressor = Some(b(kind));
+                    let archive = { let mut plain = base.clone(); plain.compressor = None; let pk = hostile_pkg(&plain); rpm::Package::parse(&mut &pk[..]).map(|p| p.content).unwrap_or_default() };
+                    full.zkind = Some(kind);
+                    let zl = crate::c07::compress07(kind, &archive).len();
+                    for cut in [0usize, 1, 9, zl / 3, zl / 2, zl - 20] {
+                        let mut s = full.clone();
+                        s.z_cut = cut;
+                        let pk = hostile_pkg(&s);
+                        let Ok(pz) = rpm::Package::parse(&mut &pk[..]) else { continue };
+                        let Some((dec, _)) = crate::c07::decode_prefix(kind, &pz.content) else { continue };
+                        if dec.is_empty() { continue; }
+                        ctx.req(&request(&pk, Some(&dec), "/target", &jail));
+                    }
                 }
             }
         }
